@@ -20,6 +20,7 @@ func init() {
 			"R15.1 also: the only deferred calls whose error is ignored are closes; R15.2 also: every Close invoked on the stream itself sits behind the closing option. " +
 			"R15.1 also: a consumer never reads a counted portion of its stream (CopyN, LimitReader, ReadFull), and the buffered bytes of the text / byte-stream consumers are not trimmed or rewritten before they are judged or stored. " +
 			"R15.6 also: the stream of the JSON / XML consumers is read by their decoder only. " +
+			"R15.2 also: the deferred function calls the closer on each of its paths. " +
 			"NOT decided: round-trip equality and chunk-exactness themselves (encoding/json, xml, yaml, bytes, io are trusted).",
 		Run: runC15,
 	})
